@@ -551,4 +551,41 @@ theorem internalEdgePart_spec (cfg : Cfg) (hb : cfg.bmi = false) (hash dd : Nat)
   · intro dir a b c d
     cases dir <;> simp_all [internalEdgePart]
 
+/-! ## summary statement, guard, non-vacuity -/
+
+/-- a valid cell of depth `d` refined by `dd` levels with `d + dd ≤ 29` never overflows the 64-bit shift -/
+theorem valid_cell_fits (d dd hash : Nat) (hsum : d + dd ≤ 29) (hh : hash < 12 * 4 ^ d) : hash < 2 ^ (64 - 2 * dd) := by
+  have h1 : 12 * 4 ^ d < 2 ^ (2 * d + 4) := by
+    rw [four_pow, Nat.pow_add]; have := Nat.two_pow_pos (2 * d); omega
+  have h2 : 2 ^ (2 * d + 4) ≤ 2 ^ (64 - 2 * dd) := Nat.pow_le_pow_right (by decide) (by omega)
+  omega
+
+/-- **`internal_edge`, every `delta_depth`** (LUT build, `1 ≤ dd ≤ 29`, `hash·4^dd` fits in 64 bits): the result is the
+    explicit ring `edgeList`; it has `4N − 4` elements, no duplicates, and its members are exactly the border descendants -/
+theorem internalEdge_main (cfg : Cfg) (hb : cfg.bmi = false) (hash dd : Nat) (h1 : 1 ≤ dd) (hd : dd ≤ 29)
+    (hh : hash < 2 ^ (64 - 2 * dd)) :
+    ∃ l, internalEdge cfg hash dd = some l ∧ l = edgeList hash dd ∧ l.length = 4 * 2 ^ dd - 4 ∧ l.Nodup ∧
+      (∀ h', h' ∈ l ↔ ∃ x y, x < 2 ^ dd ∧ y < 2 ^ dd ∧ (x = 0 ∨ x = 2 ^ dd - 1 ∨ y = 0 ∨ y = 2 ^ dd - 1) ∧
+        h' = hash * 4 ^ dd + interleave x y) :=
+  ⟨_, internalEdge_spec cfg hb hash dd h1 hd hh, rfl, internalEdge_length hash dd h1,
+    internalEdge_nodup hash dd h1 (by omega), fun h' => internalEdge_mem hash dd h' h1⟩
+
+/-- the convenience functions accept exactly `(d + dd) % 256 ≤ depthMax` (`u8` addition) -/
+theorem internalEdgeTop_guard (cfg : Cfg) (depthMax d hash dd : Nat) :
+    ((d + dd) % 256 ≤ depthMax → internalEdgeTop cfg depthMax d hash dd = internalEdge cfg hash dd ∧
+      internalEdgeSortedTop cfg depthMax d hash dd = internalEdgeSorted cfg hash dd) ∧
+    (¬ (d + dd) % 256 ≤ depthMax → internalEdgeTop cfg depthMax d hash dd = none ∧
+      internalEdgeSortedTop cfg depthMax d hash dd = none) := by
+  constructor <;> intro h <;> simp [internalEdgeTop, internalEdgeSortedTop, h]
+
+/-- non-vacuity: the hypotheses hold for the last cell of depth 9 refined by 20 levels (depth 29) -/
+example : (1 : Nat) ≤ 20 ∧ 20 ≤ 29 ∧ 12 * 4 ^ 9 - 1 < 2 ^ (64 - 2 * 20) := by decide
+
+/-- the explicit list evaluates to what the model returns (`dd = 1, 2, 3`) -/
+example : internalEdge { debug := true, bmi := false } 7 1 = some (edgeList 7 1) ∧
+    internalEdge { debug := true, bmi := false } 7 2 = some (edgeList 7 2) ∧
+    internalEdge { debug := true, bmi := false } 7 3 = some (edgeList 7 3) ∧
+    edgeCoords 2 = [(0, 0), (1, 0), (2, 0), (3, 0), (3, 1), (3, 2), (3, 3), (2, 3), (1, 3), (0, 3), (0, 2), (0, 1)] := by
+  decide +kernel
+
 end Hpx.EdgeInternal
